@@ -52,7 +52,7 @@ LCPX = ["echoreq", "echorep", "discreq", "prej_ipcp", "prej_ip6cp", "prej_other"
         "cnak_zero", "cnak_eap", "cnak_short", "crej_all"]
 FRAMES = ([("lcp", k) for k in CF + LCPX] + [("ipcp", k) for k in CF] + [("ip6cp", k) for k in CF] +
           [("pap", k) for k in ("req", "req_bad", "other")] + [("chap", k) for k in ("resp", "resp_bad", "other")] +
-          [("ip6", k) for k in ("rs", "ns", "junk")] + [("unk", k) for k in ("ip4", "ccp", "short")])
+          [("ip6", k) for k in ("rs", "ns", "junk", "dh_sol", "dh_req")] + [("unk", k) for k in ("ip4", "ccp", "short")])
 AK = ["acc", "accip", "rej", "err"]
 
 
@@ -104,7 +104,7 @@ def alphabet(i=0):
     return evs
 
 
-PROBES = [[fr(0, "ipcp", "creq_ok"), "t:0:ipcp", fr(0, "ip6cp", "creq_ok"), fr(0, "ip6cp", "cack"), fr(0, "ip6", "rs")],
+PROBES = [[fr(0, "ipcp", "creq_ok"), "t:0:ipcp", fr(0, "ip6cp", "creq_ok"), fr(0, "ip6cp", "cack"), fr(0, "ip6", "rs"), fr(0, "ip6", "dh_sol"), fr(0, "ip6", "dh_req")],
           [fr(0, "lcp", "creq_ok"), fr(0, "lcp", "cack"), fr(0, "chap", "resp"), "a:2:acc", "a:3:acc", fr(0, "ipcp", "creq_ok")],
           ["a:1:acc", "a:2:acc", fr(0, "ip6cp", "creq_ok"), "t:0:ip6cp", "x:0", "a:2:acc"]]
 
